@@ -422,7 +422,7 @@ func runC17(r *core.Run) {
 		return
 	}
 	r.Set("template_vocabulary_size", len(voc.tagAttr))
-	n := r.N(40000, 250000)
+	n := r.N(40000, 1000000)
 	core.Parallel(n, workers(), func(i int) {
 		c := &c17Case{Seed: r.Seed, Idx: i, Kind: "built"}
 		if i%4 == 3 {
